@@ -4,6 +4,7 @@ CONSTANTS
   Paths <- PathsT
   Keys = {}
   MaxOps = 1000
+  TemplateDims = {}
   OverwriteRule = "documented"
 SPECIFICATION TSpec
 INVARIANT C16_StatsAreBagSum
